@@ -232,6 +232,8 @@ def ev(node, consts, depth=0):
     if k == 'call':
         p, a = node[1], node[2]
         last = p[-1]
+        if p == ['BitString', 'new'] and not a:
+            return ('bits', [])
         if p == ['LazyLock', 'new'] or p == ['Some'] or p == ['Box', 'new']:
             return ev(a[0], consts, depth + 1)
         if p[0] == '<q>' and last == 'from':          # <OctetString as From<&'static [u8]>>::from(&[..])
